@@ -140,6 +140,15 @@ static FWire dump(Reader& r) {
         for (const auto& m : L.geo.meshes()) { if (&m==&mp(0)) a=k; if (&m==&mp(1)) b=k; ++k; }
         out.z.push_back((ll) a); out.z.push_back((ll) b);
     }
+    // the order in which deflate() visits meshes: for each isolated part, the meshes flagged outermost (flags as the
+    // real Geometry computed them -- how they are computed is C11's subject, not this model's)
+    std::vector<ll> dord;
+    for (const auto& part : L.geo.isolated_parts())
+        for (const auto& meshptr : part)
+            if (meshptr->outermost()) {
+                size_t k = 0; for (const auto& m : L.geo.meshes()) { if (&m==meshptr) dord.push_back((ll) k); ++k; }
+            }
+    out.z.push_back((ll) dord.size()); out.z.insert(out.z.end(),dord.begin(),dord.end());
     return out;
 }
 
